@@ -505,6 +505,29 @@ func ZZ_C03_Scale() {
 	})
 }
 
+// scaling an attribute other than the position, about an origin that is exactly zero and about a symbolic one
+func ZZ_C03_ScaleOtherAttribute() {
+	m := SymMesh("m", modeling.TriangleTopology, zz.Bound("V"), zz.Bound("T"), 2)
+	zz.Assume(m.HasFloat3Attribute(modeling.NormalAttribute))
+	zz.Reach("input")
+	s := sv3("s")
+	o := vector3.Zero[float64]()
+	if zz.Bool("symbolicOrigin") {
+		o = sv3("o")
+	}
+	out := meshops.ScaleAttribute3D(m, modeling.NormalAttribute, o, s)
+	othersUntouched(m, out, modeling.NormalAttribute, "ScaleAttribute3D(normal)")
+	pointMap(m, out, modeling.NormalAttribute, "ScaleAttribute3D(normal)", func(i int, v vector3.Float64) vector3.Float64 {
+		return vector3.New(o.X()+(v.X()-o.X())*s.X(), o.Y()+(v.Y()-o.Y())*s.Y(), o.Z()+(v.Z()-o.Z())*s.Z())
+	})
+	d := sv3("d")
+	out2 := meshops.TranslateAttribute3D(m, modeling.NormalAttribute, d)
+	othersUntouched(m, out2, modeling.NormalAttribute, "TranslateAttribute3D(normal)")
+	pointMap(m, out2, modeling.NormalAttribute, "TranslateAttribute3D(normal)", func(i int, v vector3.Float64) vector3.Float64 {
+		return vector3.New(v.X()+d.X(), v.Y()+d.Y(), v.Z()+d.Z())
+	})
+}
+
 func ZZ_C03_Rotate() {
 	m := transformInput()
 	q := quaternion.New(sv3("q.v"), zz.Float64("q.w"))
